@@ -34,6 +34,17 @@ def units_for(pid):
     return res
 
 
+def canon_id(oid):
+    """identity of an obligation up to the names of locals: `unit::fn :: kind :: shape`, identifiers of the quoted expression
+    (not method / function / macro names, not field names after a dot) replaced by `$`, occurrence ordinal dropped"""
+    parts = oid.split(' :: ', 2)
+    if len(parts) < 3:
+        return oid
+    rest = re.sub(r' #\d+(?= @|$)', '', parts[2])
+    rest = re.sub(r'(?<![.\w])[A-Za-z_][A-Za-z0-9_]*(?![\w(!])', '$', rest)
+    return parts[0] + ' :: ' + parts[1] + ' :: ' + rest
+
+
 def load_known():
     findings, fixed = [], []
     if os.path.exists(KNOWN):
@@ -159,6 +170,12 @@ def main(argv=None):
             continue
         failing_items = {}
         other_prop_fail = set()
+        # listed known findings are matched by their exact obligation id first; an obligation that matches none exactly may take a
+        # listed finding of the same function, kind and expression SHAPE that no obligation of this run matches exactly (a
+        # behaviour-preserving rename of locals changes the quoted expression, not what fails); each listed finding absorbs
+        # at most one obligation per run
+        all_oids = set(obligation_id(unit, d)[0] for d in res.diags if d.category != 'note')
+        consumed = set()
         for d in res.diags:
             if d.category == 'note':
                 continue
@@ -190,6 +207,11 @@ def main(argv=None):
                 continue
             failing_items.setdefault(it.label, []).append(oid)
             k = next((k for k in known_for if k['id'] == oid), None)
+            if k is None:
+                k = next((k for k in known_for if k['id'] not in all_oids and k['id'] not in consumed
+                          and canon_id(k['id']) == canon_id(oid)), None)
+                if k is not None:
+                    consumed.add(k['id'])
             if k is not None:
                 matched_known[oid] = k
                 kf_functions.add(it.label)
@@ -254,6 +276,12 @@ def main(argv=None):
                     vn = '%s::%s' % (unit.crate_name, m.group(1))
                     fr = res.functions.get(vn)
                     if fr is None:
+                        continue
+                    if not fr['success'] and it.label in kf_functions:
+                        # the lemma that carries a listed known finding: reported, not counted (like a function with a finding)
+                        per_ob.append({'name': vn, 'backend': 'verus/z3', 'mode': 'proof', 'time_us': fr['time_us'],
+                                       'rlimit': fr['rlimit'], 'success': False, 'failed_clauses': failing_items.get(it.label, []),
+                                       'note': 'subject to a listed known finding; not counted'})
                         continue
                     obligations += 1
                     if fr['success']:
